@@ -1,6 +1,7 @@
 package errchain
 
 import (
+	"encoding/json"
 	"strings"
 
 	"github.com/GuanceCloud/platypus/internal/verifnd"
@@ -93,4 +94,85 @@ func vItoa(v int) string {
 		v /= 10
 	}
 	return s
+}
+
+// ---- C17(e'): an error chain survives a JSON round trip ----
+
+type vJSONProfile struct {
+	file         string
+	ln, col, pos int
+}
+
+var vJSONProfiles = []vJSONProfile{
+	{"a.p", 1, 1, 0},
+	{"dir/b.ppl", 12, 7, 311},
+	{"", 0, 0, 0},
+	{"q\"uo\\te.p", -1, -1, -1},
+	{"<&>.p", 9223372036854775807, 9007199254740993, -9223372036854775808},
+	{"hé世\U0001F600.p", 2147483648, 4294967297, 9007199254740992},
+	{"line\nbreak\ttab\x01.p", 3, 4, 5},
+	{"  .p", 65536, 255, 1000000000000},
+}
+
+var vJSONMessages = []string{"boom", "", "unexpected: \"x\"\n\tat <eof> \\ hé世 &  ", "{\"error\":1}"}
+
+// VerifChainJSON: a chain of 0..N positions drawn from a table of boundary profiles (file names
+// with quotes, backslashes, control characters, HTML-sensitive and multi-byte characters, line
+// separators; integers at the 32/53/63-bit boundaries) and a message with the same character
+// classes is marshalled with encoding/json and unmarshalled into a fresh PlError: nothing is lost
+// or altered, and the rendering is the same. The same for a PlErrors list holding it twice.
+func VerifChainJSON() {
+	n := verifnd.Int(0, verifnd.Param("N", 2))
+	e := &PlError{Err: vJSONMessages[verifnd.Choice(len(vJSONMessages))]}
+	for i := 0; i < n; i++ {
+		p := vJSONProfiles[verifnd.Choice(len(vJSONProfiles))]
+		if i == 0 && verifnd.Bool() {
+			e = NewErr(p.file, token.LnColPos{Pos: token.Pos(p.pos), Ln: p.ln, Col: p.col}, e.Err)
+			continue
+		}
+		e.ChainAppend(p.file, token.LnColPos{Pos: token.Pos(p.pos), Ln: p.ln, Col: p.col})
+	}
+	text, err := json.Marshal(e)
+	verifnd.Assert(err == nil, "json:marshal-succeeds")
+	if err != nil {
+		return
+	}
+	var back PlError
+	err = json.Unmarshal(text, &back)
+	verifnd.Assert(err == nil, "json:unmarshal-succeeds")
+	if err != nil {
+		return
+	}
+	verifnd.Reach("round-trip")
+	same := func(a, b *PlError, label string) {
+		verifnd.Assert(a.Err == b.Err, label+":message-kept")
+		verifnd.Assert(len(a.PosChain) == len(b.PosChain), label+":chain-length-kept")
+		if len(a.PosChain) != len(b.PosChain) {
+			return
+		}
+		for i := range a.PosChain {
+			x, y := a.PosChain[i], b.PosChain[i]
+			verifnd.Assert(x.File == y.File, label+":file-kept")
+			verifnd.Assert(x.Ln == y.Ln && x.Col == y.Col, label+":line-column-kept")
+			verifnd.Assert(x.Pos == y.Pos, label+":offset-kept")
+		}
+		verifnd.Assert(a.Error() == b.Error(), label+":same-rendering")
+	}
+	same(e, &back, "json")
+	// a second trip is the identity on the text
+	text2, err2 := json.Marshal(&back)
+	verifnd.Assert(err2 == nil && string(text2) == string(text), "json:second-trip-same-text")
+
+	// a list of chains
+	list := PlErrors{*e, *e.Copy()}
+	lt, lerr := json.Marshal(list)
+	verifnd.Assert(lerr == nil, "json:list-marshal-succeeds")
+	var lback PlErrors
+	lerr = json.Unmarshal(lt, &lback)
+	verifnd.Assert(lerr == nil && len(lback) == 2, "json:list-unmarshal-succeeds")
+	if lerr == nil && len(lback) == 2 {
+		same(e, &lback[0], "json-list0")
+		same(e, &lback[1], "json-list1")
+		verifnd.Assert(list.Error() == lback.Error(), "json:list-same-rendering")
+	}
 }
